@@ -3,10 +3,15 @@
 (* C09 conformance (M1), connection part.  The driver ran N instances (one *)
 (* real http gun each, from the registered factory) x R requests against a *)
 (* recording target, keep-alive on and off, http and https.  Log per run:  *)
-(*   Run{n, r, keepalive, ssl}                                             *)
+(*   Run{n, r, keepalive, ssl, insts, opts, gap_ms}   opts: the gun's      *)
+(*                               documented client options set away from   *)
+(*                               their defaults; gap_ms: every instance    *)
+(*                               idles at least that long between shots    *)
+(*                               (longer than response-header-timeout, far *)
+(*                               shorter than idle-conn-timeout)           *)
 (*   Shoot{inst, uri}            who shot which request (gun wrapper)      *)
 (*   Conn{conn, state}           the target's ConnState callback, and      *)
-(*   Req{conn, uri, inst}        the request it served, in the target's    *)
+(*   Req{conn, uri, inst, ok}    the request it served, in the target's    *)
 (*                               own order (inst joined from Shoot by uri) *)
 (*   Sample{proto, net}, End{n, r}                                         *)
 (* The effects of HttpConn are applied line by line and every invariant of *)
@@ -23,10 +28,10 @@ Trace == ndJsonDeserialize(IOEnv.VERIF_TRACE)
 tvars == <<l, nsamp, nbad>>
 TInit == /\ l = 0 /\ nsamp = 0 /\ nbad = 0
          /\ ninst = 0 /\ ka = TRUE /\ cs = <<>> /\ own = <<>> /\ nreq = <<>>
-         /\ pool = <<>> /\ busy = <<>> /\ sent = <<>>
+         /\ pool = <<>> /\ busy = <<>> /\ sent = <<>> /\ fails = <<>>
 
 E == Trace[l + 1]
-Keep == UNCHANGED <<ninst, ka, cs, own, nreq>>
+Keep == UNCHANGED <<ninst, ka, cs, own, nreq, fails>>
 
 Step == /\ l < Len(Trace)
         /\ l' = l + 1
@@ -34,16 +39,21 @@ Step == /\ l < Len(Trace)
         /\ CASE E.ev = "Run" ->
                    /\ ninst' = E.n /\ ka' = E.keepalive
                    /\ cs' = <<>> /\ own' = <<>> /\ nreq' = <<>> /\ nsamp' = 0 /\ nbad' = 0
+                   /\ fails' = [i \in {E.insts[k] : k \in DOMAIN E.insts} |-> 0]
              [] E.ev = "Conn" /\ E.state = "new" ->
-                   DialEff(E.conn) /\ UNCHANGED <<ninst, ka, nsamp, nbad>>
+                   DialEff(E.conn) /\ UNCHANGED <<ninst, ka, nsamp, nbad, fails>>
              [] E.ev = "Conn" /\ E.state = "active" ->
-                   ActiveEff(E.conn) /\ UNCHANGED <<ninst, ka, own, nreq, nsamp, nbad>>
+                   ActiveEff(E.conn) /\ UNCHANGED <<ninst, ka, own, nreq, nsamp, nbad, fails>>
              [] E.ev = "Conn" /\ E.state = "idle" ->
-                   IdleEff(E.conn) /\ UNCHANGED <<ninst, ka, own, nreq, nsamp, nbad>>
+                   IdleEff(E.conn) /\ UNCHANGED <<ninst, ka, own, nreq, nsamp, nbad, fails>>
              [] E.ev = "Conn" /\ E.state = "closed" ->
-                   ClosedEff(E.conn) /\ UNCHANGED <<ninst, ka, own, nreq, nsamp, nbad>>
+                   ClosedEff(E.conn) /\ UNCHANGED <<ninst, ka, own, nreq, nsamp, nbad, fails>>
              [] E.ev = "Req" ->
-                   ReqEff(E.inst, E.conn) /\ UNCHANGED <<ninst, ka, cs, nsamp, nbad>>
+                   \* the request reached the target; if its exchange did not end with a complete answer (the
+                   \* instance's own sample says so) the instance is entitled to a new connection afterwards
+                   /\ ReqEff(E.inst, E.conn)
+                   /\ IF E.ok THEN fails' = fails ELSE FailEff(E.inst)
+                   /\ UNCHANGED <<ninst, ka, cs, nsamp, nbad>>
              [] E.ev = "Sample" ->
                    /\ IF E.proto = 200 /\ E.net = 0 THEN nsamp' = nsamp + 1 /\ nbad' = nbad
                                                     ELSE nbad' = nbad + 1 /\ nsamp' = nsamp
@@ -59,9 +69,13 @@ SumReq(S) == IF S = {} THEN 0 ELSE LET c == CHOOSE x \in S : TRUE IN nreq[c] + S
 ReqOnActive == (l > 0 /\ Last.ev = "Req") => cs[Last.conn] = "active"
 \* at the end of a run: every request of every instance arrived and was answered, and without
 \* keep-alives the target saw exactly one connection per request
+\* (runs with a small response-header-timeout are tolerant: under load an exchange may time out)
 RunComplete == (l > 0 /\ Last.ev = "End") =>
-                  /\ SumReq(Conns) = Last.n * Last.r
-                  /\ nsamp = Last.n * Last.r /\ nbad = 0
+                  /\ IF "tolerant" \in DOMAIN Last /\ Last.tolerant
+                     THEN /\ nsamp + nbad = Last.n * Last.r
+                          /\ SumReq(Conns) >= nsamp /\ SumReq(Conns) <= Last.n * Last.r
+                     ELSE /\ SumReq(Conns) = Last.n * Last.r
+                          /\ nsamp = Last.n * Last.r /\ nbad = 0
                   /\ ~ka => Cardinality(Conns) = Last.n * Last.r
                   /\ \A c \in Conns : own[c] # NoInst
 =============================================================================
